@@ -243,6 +243,9 @@ func genScenarios(r *rand.Rand, o ScenarioOpts) []*Scenario {
 	if sch == nil {
 		sch = schema.NewBodySchema()
 	}
+	if o.Gen.DynFocus {
+		sch = dynFocusSchema(r)
+	}
 	funcs := genFunctions(r)
 	src, decls := genConfig(r, sch, o.Inject)
 	mk := func(text string, kind string) *Scenario {
